@@ -17,6 +17,9 @@ pub struct Case04 {
     pub ast: AstCase,
     /// metacharacter-free replacement
     pub rep: String,
+    /// a case given as text (what the libFuzzer target finds); `ast` is then unused
+    #[serde(default)]
+    pub text: Option<StrCase>,
 }
 
 const EXTRA: &[char] = &['𐐀', '\u{301}'];
@@ -32,7 +35,7 @@ fn part(dialect: Dialect) -> BoxedStrategy<Case04> {
     }
     let rep = prop::collection::vec(prop::sample::select(vec!['x', 'y', '-', '𐐀', ' ']), 0..3).prop_map(|v| v.into_iter().collect::<String>());
     (gen::node_strategy(&cfg), gen::flags_strategy("ims"), gen::raw_inputs(8, 12), rep)
-        .prop_map(move |(node, flags, inputs, rep)| Case04 { dialect, ast: AstCase { node, flags, inputs: Inputs::Raw(inputs) }, rep })
+        .prop_map(move |(node, flags, inputs, rep)| Case04 { dialect, ast: AstCase { node, flags, inputs: Inputs::Raw(inputs) }, rep, text: None })
         .boxed()
 }
 
@@ -98,14 +101,29 @@ fn check_partition_literal(case: &Case04, ctx: &mut Ctx) -> Verdict {
 }
 
 pub fn check_partition(case: &Case04, ctx: &mut Ctx) -> Verdict {
+    if let Some(t) = &case.text {
+        if t.flags.contains('q') || t.flags.chars().any(|c| !"smix".contains(c)) {
+            return Verdict::Skip("text-case-with-q-or-invalid-flags");
+        }
+        return partition_relations(t.dialect, &t.pattern, &t.flags, &t.inputs, "-", ctx);
+    }
     if case.ast.flags.contains('q') {
         return check_partition_literal(case, ctx);
     }
     let m = case.ast.materialize(case.dialect, EXTRA);
+    let v = partition_relations(case.dialect, &m.pattern, &case.ast.flags, &m.inputs, &case.rep, ctx);
+    if matches!(v, Verdict::Pass) {
+        ctx.obs.sample(|| json!({"dialect": format!("{:?}", case.dialect), "pattern": m.pattern, "flags": case.ast.flags, "inputs": m.inputs, "rep": case.rep}));
+    }
+    v
+}
+
+/// the relations themselves, on a pattern given as text (also used to re-judge what the libFuzzer target `rel` finds)
+pub fn partition_relations(dialect: Dialect, pattern: &str, flags: &str, gen_inputs: &[String], rep: &str, ctx: &mut Ctx) -> Verdict {
     // forced inputs: empty, and the generated ones
-    let mut inputs = m.inputs.clone();
+    let mut inputs = gen_inputs.to_vec();
     inputs.push(String::new());
-    let obs = match observe(case.dialect, &m.pattern, &case.ast.flags, &inputs, 0, Some(&case.rep), ctx) {
+    let obs = match observe(dialect, pattern, flags, &inputs, 0, Some(rep), ctx) {
         Observed::Ok(v, _) => v,
         Observed::Nullable => {
             ctx.obs.label("nullable(engine)");
@@ -114,15 +132,15 @@ pub fn check_partition(case: &Case04, ctx: &mut Ctx) -> Verdict {
         Observed::CompileErr(_) => return Verdict::Skip("compile_err"),
         Observed::Skip(r) => return Verdict::Skip(r),
         Observed::Inconsistent(what) => {
-            return Verdict::Fail(Failure { sub: "api-agreement".into(), expected: "all three APIs accept or all reject".into(), actual: what, detail: format!("pattern={:?} flags={:?}", m.pattern, case.ast.flags) })
+            return Verdict::Fail(Failure { sub: "api-agreement".into(), expected: "all three APIs accept or all reject".into(), actual: what, detail: format!("pattern={:?} flags={:?}", pattern, flags) })
         }
     };
-    ctx.obs.label(if case.dialect == Dialect::Xsd { "dialect=xsd" } else { "dialect=xpath" });
+    ctx.obs.label(if dialect == Dialect::Xsd { "dialect=xsd" } else { "dialect=xpath" });
     for o in &obs {
         ctx.obs.eval(4);
         let cs = chars(&o.input);
         let fail = |sub: &str, expected: String, actual: String| {
-            Verdict::Fail(Failure { sub: sub.into(), expected, actual, detail: format!("pattern={:?} flags={:?} input={:?} rep={:?}", m.pattern, case.ast.flags, o.input, case.rep) })
+            Verdict::Fail(Failure { sub: sub.into(), expected, actual, detail: format!("pattern={:?} flags={:?} input={:?} rep={:?}", pattern, flags, o.input, rep) })
         };
         // 1. concatenation of analyze entries = input
         let t = analyze_text(&o.entries);
@@ -172,7 +190,7 @@ pub fn check_partition(case: &Case04, ctx: &mut Ctx) -> Verdict {
         }
         // 5. replace with plain R = tokens joined by R
         if let Some(rp) = &o.replaced_plain {
-            let joined = if cs.is_empty() { String::new() } else { expect_tokens.join(&case.rep) };
+            let joined = if cs.is_empty() { String::new() } else { expect_tokens.join(rep) };
             if *rp != joined {
                 return fail("replace-plain-vs-tokens", format!("{joined:?}"), format!("{rp:?}"));
             }
@@ -201,10 +219,9 @@ pub fn check_partition(case: &Case04, ctx: &mut Ctx) -> Verdict {
             ctx.obs.label("astral-with-match");
         }
         if k >= 2 || (k >= 1 && (o.a_spans[0].0 == 0 || o.a_spans[k - 1].1 == o.n)) {
-            ctx.obs.nontrivial(&(&m.pattern, &case.ast.flags, &o.input, case.dialect));
+            ctx.obs.nontrivial(&(&pattern, &flags, &o.input, dialect));
         }
     }
-    ctx.obs.sample(|| json!({"dialect": format!("{:?}", case.dialect), "pattern": m.pattern, "flags": case.ast.flags, "inputs": m.inputs, "rep": case.rep}));
     Verdict::Pass
 }
 
@@ -234,7 +251,7 @@ impl Prop for C04 {
             if let Inputs::Lit(v) = &mut ast.inputs {
                 v.retain(|s| s.chars().count() <= 4);
             }
-            Case04 { dialect: Dialect::XPath, ast, rep: "-".into() }
+            Case04 { dialect: Dialect::XPath, ast, rep: "-".into(), text: None }
         });
         let size = tier.pick(3, 4);
         let nodes = crate::enumerate::up_to(&super::c01::enum_cfg(), size);
@@ -242,14 +259,49 @@ impl Prop for C04 {
         let scope2 = format!("all {} ASTs of size <= {} over the atoms and quantifiers of C01's first scope x flags {{'', m, s, i}} x all {} inputs over {{a,b,LF}} of length <= 3", nodes.len(), size, inputs.len());
         let it2 = nodes.into_iter().flat_map(move |node| {
             let inputs = inputs.clone();
-            ["", "m", "s", "i"].into_iter().map(move |f| Case04 { dialect: Dialect::XPath, ast: AstCase { node: node.clone(), flags: f.to_string(), inputs: Inputs::Lit(inputs.clone()) }, rep: "-".into() })
+            ["", "m", "s", "i"].into_iter().map(move |f| Case04 { dialect: Dialect::XPath, ast: AstCase { node: node.clone(), flags: f.to_string(), inputs: Inputs::Lit(inputs.clone()) }, rep: "-".into(), text: None })
         });
         vec![(name, format!("{scope} (inputs of length <= 4 only)"), Box::new(it)), ("exhaustive-small".into(), scope2, Box::new(it2))]
+    }
+    fn extra(&self, ctx: &mut Ctx) -> Vec<(String, Verdict, Option<Case04>)> {
+        // thorough tier: coverage-guided search with the relations as oracle inside the libFuzzer target `rel`
+        if ctx.tier != Tier::Thorough {
+            return vec![];
+        }
+        let seed = std::env::var("VERIF_SEED").ok().and_then(|s| s.parse().ok()).unwrap_or(0u64);
+        let c = crate::fuzzrun::Campaign { name: "C04", target: "rel", hooks: true, runs_per_job: 400_000, jobs: 12, timeout_s: 25, seed: seed + 404 };
+        match crate::fuzzrun::run(&c, &[]) {
+            Err(e) => {
+                eprintln!("harness error: fuzz campaign: {e}");
+                std::process::exit(2)
+            }
+            Ok((found, execs)) => {
+                ctx.obs.label(&format!("libfuzzer:executions={execs}"));
+                ctx.obs.label(&format!("libfuzzer:artifacts={}", found.len()));
+                ctx.obs.eval(execs);
+                for f in found {
+                    let case = Case04 { dialect: f.case.dialect, ast: AstCase { node: Node::Empty, flags: String::new(), inputs: Inputs::Lit(vec![]) }, rep: "-".into(), text: Some(f.case.clone()) };
+                    match check_partition(&case, ctx) {
+                        Verdict::Fail(fl) => {
+                            return vec![(format!("libfuzzer-{}", f.kind), Verdict::Fail(Failure { detail: format!("{} (candidate found by libFuzzer, re-judged through the worker)", fl.detail), ..fl }), Some(case))];
+                        }
+                        _ => {
+                            println!("note: libFuzzer artifact ({}) did not fail when re-judged through the worker: {}", f.kind, f.case.describe());
+                            ctx.obs.label(&format!("libfuzzer:artifact-not-confirmed:{}", f.kind));
+                        }
+                    }
+                }
+                vec![]
+            }
+        }
     }
     fn check(&self, case: &Case04, ctx: &mut Ctx) -> Verdict {
         check_partition(case, ctx)
     }
     fn describe(&self, case: &Case04) -> Value {
+        if let Some(t) = &case.text {
+            return t.describe();
+        }
         let m = case.ast.materialize(case.dialect, EXTRA);
         json!({"dialect": format!("{:?}", case.dialect), "pattern": m.pattern, "flags": case.ast.flags, "inputs": m.inputs, "rep": case.rep})
     }
